@@ -604,3 +604,36 @@ package actions
 //@                 deliveries.completed_at$null(d) && deliveries.attempts(d) == 0 && live_sub(deliveries.subscription_id(d)) && wake_on_commit(deliveries.subscription_id(d)) &&
 //@                 (exists k int :: 0 <= k && k <= idx && deliveries.message_id(d) == deliveryData[k].DeliveryMessageID && subscriptions.topic_id(deliveries.subscription_id(d)) == deliveryData[k].DeadLetterTopicID)
 //@     invariant !dbfailed() || old(dbfailed())
+
+// ---- C04 / C06: nack. Every listed delivery that is still outstanding is either rescheduled by the subscription's
+// back-off for its attempt count (attempt_at = now + min(max, min x 1.1^attempts) + jitter < 1 s; nothing else about it
+// changes) or - when the subscription has a full dead-letter configuration and the attempts are used up - handed to
+// the dead-letter routine; no other existing delivery changes.
+//@ func (*NackDeliveries).Execute(a, ctx, tx) (err)
+//@   property C04 C06
+//@   uses tables notifyspec backoff
+//@   requires a != nil && tx != nil && tables_wf()
+//@   requires [C04] policy_domain: forall s Id :: {subscriptions.exists(s)} subscriptions.exists(s) ==> effmax_row(s) <= 8640000000000000
+//@   ensures scope: [C04 C06 C02] exists now clock :: (forall d Id :: {deliveries.completed_at$null(d)} old(deliveries.exists(d)) ==>
+//@             delivery_unchanged(d) || (contains(a.params.IDs, d) && old(outstanding(d, now))))
+//@   ensures no_swallowed_failure: [C09] dbfailed() && !old(dbfailed()) ==> err != nil
+//@   modifies T:deliveries:*, CB:*, E:*ent.DeliveryCreate:, S:dbfailed, S:wake_on_commit, F:actions.NackDeliveries:actionBase.results, F:actions.nackDeliveriesResults:*, F:actions.actionTimer:*,
+//@            E:uuid.UUID:, E:*ent.Delivery:, MH:uuid.UUID:*ent.Subscription, MV:uuid.UUID:*ent.Subscription:, MV:uuid.UUID:*ent.Subscription:*, F:actions.deadLetterData:*
+//@   loop 1
+//@     invariant a != nil && tx != nil && idx < len(deliveries)
+//@     invariant keys: forall k int :: {deliveries[k]} 0 <= k && k <= idx ==> has(subById, deliveries[k].SubscriptionID)
+//@     invariant listed: forall s uuid.UUID :: has(subById, s) ==> (exists i int :: 0 <= i && i < len(subIDs) && subIDs[i] == s)
+//@     invariant ids_kept: forall i int :: {a.params.IDs[i]} 0 <= i && i < len(a.params.IDs) ==> a.params.IDs[i] == old(a.params.IDs[i])
+//@   loop 2
+//@     invariant a != nil && tx != nil && idx < len(subs)
+//@     invariant keys: forall k int :: {deliveries[k]} 0 <= k && k < len(deliveries) ==> has(subById, deliveries[k].SubscriptionID)
+//@     invariant vals: forall j int :: {subs[j]} 0 <= j && j <= idx ==> subById[subs[j].ID] == subs[j]
+//@     invariant ids_kept: forall i int :: {a.params.IDs[i]} 0 <= i && i < len(a.params.IDs) ==> a.params.IDs[i] == old(a.params.IDs[i])
+//@   loop 3
+//@     invariant a != nil && tx != nil && idx < len(deliveries)
+//@     invariant ids_kept: forall i int :: {a.params.IDs[i]} 0 <= i && i < len(a.params.IDs) ==> a.params.IDs[i] == old(a.params.IDs[i])
+//@     invariant subs_ok: forall k int :: {deliveries[k]} 0 <= k && k < len(deliveries) ==> subById[deliveries[k].SubscriptionID] != nil &&
+//@                 subById[deliveries[k].SubscriptionID].ID == deliveries[k].SubscriptionID
+//@     invariant pending: forall k int :: {deliveries[k]} idx < k && k < len(deliveries) ==> delivery_unchanged(deliveries[k].ID)
+//@     invariant others: forall d Id :: {deliveries.completed_at$null(d)} old(deliveries.exists(d)) ==> delivery_unchanged(d) || (exists k int :: 0 <= k && k <= idx && deliveries[k].ID == d)
+//@     invariant !dbfailed() || old(dbfailed())
